@@ -181,6 +181,9 @@ struct iauth_xquery_service {
 
 DECLARE_VECTOR(iauth_xquery_services, struct iauth_xquery_service *);
 
+/** Most services we can track: one bit each in a client's uint32_t masks. */
+#define IAUTH_XQUERY_MAX_SERVICES 32
+
 static struct {
     struct conf_node_object *root;
 } conf;
@@ -603,6 +606,17 @@ static void iauth_xquery_config_service(const char *name, const char *type)
 
     /* If not, add it. */
     if (ii == iauth_xquery_services.used) {
+        /* Per-client state is one bit per table slot in 32-bit masks. */
+        for (ii = 0; ii < iauth_xquery_services.used; ++ii)
+            if (!iauth_xquery_services.vec[ii])
+                break;
+        if (ii >= IAUTH_XQUERY_MAX_SERVICES) {
+            log_message(iauth_xquery_log, LOG_ERROR,
+                        "Too many XQUERY services (limit %d); ignoring %s",
+                        IAUTH_XQUERY_MAX_SERVICES, name);
+            return;
+        }
+
         stats.n_srv_allocs++;
         srv = xmalloc(sizeof(*srv) + strlen(name));
         strcpy(srv->name, name);
